@@ -22,7 +22,7 @@ fn main() {
             match std::panic::catch_unwind(|| checks::run(&args[2], tier)) {
                 Ok(c) => c,
                 Err(_) => {
-                    println!("INCONCLUSIVE property={} the harness itself panicked: {}", args[2], bourse_verif::engine::last_panic());
+                    println!("INCONCLUSIVE property={} the harness itself panicked: {} (first: {})", args[2], bourse_verif::engine::last_panic(), bourse_verif::engine::first_harness_panic());
                     2
                 }
             }
@@ -30,7 +30,7 @@ fn main() {
         "replay" if args.len() >= 4 => match std::panic::catch_unwind(|| checks::replay(&args[2], &args[3])) {
             Ok(c) => c,
             Err(_) => {
-                println!("INCONCLUSIVE property={} the harness itself panicked: {}", args[2], bourse_verif::engine::last_panic());
+                println!("INCONCLUSIVE property={} the harness itself panicked: {} (first: {})", args[2], bourse_verif::engine::last_panic(), bourse_verif::engine::first_harness_panic());
                 2
             }
         },
